@@ -190,6 +190,16 @@ def judge_pair(case, rec, compiled=None):
             rec.check(abs(vol(r6, dim) - 2 * Va) <= 1e-12 * 2 * Va and bool(np.all(np.abs(p6 - pa) <= 1e-12 * scale)), "volume-additive",
                       f"merging a droplet with itself in place gives volume {vol(r6, dim)!r} at {p6.tolist()}, expected {2 * Va!r} at {pa.tolist()}; {label}")
     if compiled is not None:
+        # the merge function the class publishes (`cls._merge_data`) is meant for compiled code as well
+        g = _compiled_attr(type(a))
+        arr_g = np.recarray(3, dtype=a.data.dtype)
+        arr_g[0], arr_g[1] = _mk(case["a"]).data, _mk(case["b"]).data
+        arr_g[2] = np.zeros_like(a.data)
+        cg = common.monitored(rec, "compiled(cls._merge_data)", g, arr_g, 0, 1, 2)
+        if rec.check(cg.ok, "no-exception", f"calling {type(a).__name__}._merge_data from compiled code raised {str(cg.exc)[:160] if cg.exc else ''}; {label}"):
+            pg, rg, wg = _state(type(a).from_data(arr_g[2]))
+            okg = close(pg, pm, scale) and close(rg, rm, max(rm, 1e-300)) and (close(wg, wm, max(abs(wm), 1e-300)) or (math.isnan(wg) and math.isnan(wm)))
+            rec.check(okg, "compiled-agrees", f"cls._merge_data in compiled code ({pg.tolist()},{rg},{wg}) != python ({pm.tolist()},{rm},{wm}); {label}")
         f = compiled(type(a), a.data.dtype)
         arr = np.recarray(3, dtype=a.data.dtype)
         arr[0], arr[1] = _mk(case["a"]).data, _mk(case["b"]).data
@@ -220,6 +230,24 @@ def judge_pair(case, rec, compiled=None):
     rec.count(f"dim:{dim}|{case['a']['cls']}")
     if ra == 0 or rb == 0:
         rec.count("one_operand_radius_zero")
+
+
+_attr_kernels: dict = {}
+
+
+def _compiled_attr(cls):
+    """A jitted kernel that calls the class attribute ``cls._merge_data`` on rows of a record array."""
+    if cls not in _attr_kernels:
+        import numba as nb
+
+        merge = cls._merge_data
+
+        @nb.njit
+        def kernel(arr, i, j, k):
+            merge(arr[i], arr[j], arr[k])
+
+        _attr_kernels[cls] = kernel
+    return _attr_kernels[cls]
 
 
 def judge_tree(case, rec):
@@ -361,12 +389,16 @@ def judge_refined(case, rec):
     em = droplets.Emulsion([droplets.DiffuseDroplet(ca, Ra, 0.9), droplets.DiffuseDroplet(cb, Rb, 1.1)])
     field = em.get_phasefield(grid)
     kw = {"num_processes": 2} if case.get("workers") else {}
+    ra_opt = [None, {"adjust_values": True}, {"vmin": None, "vmax": None, "adjust_values": True}, {"vmin": None, "vmax": None},
+              {"tolerance": 1e-6}][case["seed"] % 5]
+    if ra_opt is not None:
+        kw["refine_args"] = dict(ra_opt)  # every way of fitting the intensity levels gives droplets like any other
     loc = common.monitored(rec, "locate_droplets(refine)", droplets.locate_droplets, field, refine=True, **kw)
     if not loc.ok or len(loc.result) != 2:
         rec.count("refined_operands_not_available")  # locating is C05's/C09's subject
         return
     a, b = loc.result[0], loc.result[1]
-    label = f"operands returned by locate_droplets(refine=True{', num_processes=2' if kw else ''}) on a {dim}-d grid: {a} and {b}"
+    label = f"operands returned by locate_droplets(refine=True, {kw}) on a {dim}-d grid: {a} and {b}"
     (pa, ra, wa), (pb, rb, wb) = _state(a), _state(b)
     Va, Vb = vol(ra, dim), vol(rb, dim)
     com = (Va * pa + Vb * pb) / (Va + Vb)
